@@ -17,8 +17,20 @@ from .core import (PathEnd, SymBool, SymBytes, SymInt, Unsupported, W, _bv, _mk,
 _CODES = {
     "b": (1, True), "B": (1, False), "h": (2, True), "H": (2, False),
     "i": (4, True), "I": (4, False), "l": (4, True), "L": (4, False),
-    "q": (8, True), "Q": (8, False),
+    "q": (8, True), "Q": (8, False), "f": (4, None), "d": (8, None),
 }
+
+
+def _float_from_bits(bs):
+    """IEEE-754 value (as binary64) of little-endian bytes (4: binary32, 8: binary64)"""
+    from .core import SymFloat
+    t = None
+    for b in reversed(bs):
+        e = z3.Extract(7, 0, SymInt.lift(b).t)
+        t = e if t is None else z3.Concat(t, e)
+    if len(bs) == 4:
+        return SymFloat(z3.fpFPToFP(z3.RNE(), z3.fpBVToFP(t, z3.Float32()), z3.Float64()))
+    return SymFloat(z3.fpBVToFP(t, z3.Float64()))
 
 
 def _parse_fmt(fmt):
@@ -117,7 +129,10 @@ class StructModel:
                 p += n
             else:
                 sz, sg = _CODES[ch]
-                out.append(compose_le(data.items[p:p + sz], sg))
+                if sg is None:
+                    out.append(_float_from_bits(data.items[p:p + sz]))
+                else:
+                    out.append(compose_le(data.items[p:p + sz], sg))
                 p += sz
         return tuple(out)
 
@@ -149,6 +164,11 @@ class StructModel:
             if not isinstance(v, (int, SymInt)) or isinstance(v, bool) and False:
                 raise self._err("required argument is not an integer")
             sz, sg = _CODES[ch]
+            if sg is None:
+                if isinstance(v, (int, float)):
+                    out.extend(_struct.pack("<" + ch, v))
+                    continue
+                raise Unsupported("pack of a symbolic float")
             lo, hi = (-(1 << (8 * sz - 1)), (1 << (8 * sz - 1)) - 1) if sg else (0, (1 << (8 * sz)) - 1)
             if isinstance(v, SymInt):
                 if v.lo < lo or v.hi > hi:
